@@ -2,3 +2,4 @@ pub mod table;
 pub mod query;
 pub mod wire;
 pub mod wire_interp;
+pub mod svc;
